@@ -101,6 +101,103 @@ def check_before_first_onset(ctx, tz, label, z, pz, first_year):
             ctx.count('before_first_onset_probes')
 
 
+def check_first_year(ctx, tz, label, z, pz, first_year):
+    """The DTSTART of each component is itself an onset: the first year must already follow the rules."""
+    UTC = tz.UTC
+    s, e = pz.transitions(first_year)
+    first = min(s, e)
+    pts = [first + D.timedelta(seconds=1), first + D.timedelta(days=20), max(s, e) - D.timedelta(days=1), max(s, e) + D.timedelta(seconds=1),
+           max(s, e) + D.timedelta(days=20)]
+    for u in pts:
+        if u.year != first_year:
+            continue
+        exp = pz.at(u)
+        if u < max(s, e) and ((s < e) != exp[2]):
+            # southern order: between the end rule and the start rule of the first year the zone is on standard time, which is
+            # also what "before the first onset of the DAYLIGHT component" gives
+            pass
+        ctx.ev()
+        ctx.count('first_year_probes')
+        try:
+            got = answers_at(z, u, UTC)
+        except Exception as ex:
+            ctx.violation('conversion-raised', {'zone': label, 'utc': u.isoformat()}, repr(ex))
+            continue
+        if got[1] != exp[0] or got[2] != exp[1]:
+            ctx.violation('first-onset-ignored', {'zone': label, 'utc': u.isoformat(), 'first_year': first_year},
+                          'in the first year (DTSTART onsets) got offset %d %r, rules say %d %r' % (got[1], got[2], exp[0], exp[1]))
+
+
+ONE_OFF = '''BEGIN:VTIMEZONE
+TZID:OneOff
+BEGIN:STANDARD
+DTSTART:19500101T000000
+TZOFFSETFROM:+0100
+TZOFFSETTO:+0100
+TZNAME:OLD
+END:STANDARD
+BEGIN:STANDARD
+DTSTART:19800406T020000
+TZOFFSETFROM:+0100
+TZOFFSETTO:+0200
+TZNAME:NEW
+END:STANDARD
+END:VTIMEZONE
+'''
+SUBMINUTE = '''BEGIN:VTIMEZONE
+TZID:Solar/West
+BEGIN:STANDARD
+DTSTART:19001028T020000
+RRULE:FREQ=YEARLY;BYMONTH=10;BYDAY=-1SU
+TZOFFSETFROM:-035602
+TZOFFSETTO:-045602
+TZNAME:LST
+END:STANDARD
+BEGIN:DAYLIGHT
+DTSTART:19000401T020000
+RRULE:FREQ=YEARLY;BYMONTH=4;BYDAY=1SU
+TZOFFSETFROM:-045602
+TZOFFSETTO:-035602
+TZNAME:LDT
+END:DAYLIGHT
+END:VTIMEZONE
+'''
+
+
+def check_directed_zones(ctx, tz):
+    # (1) one-off components (bare DTSTART, no RRULE), two differing STANDARD components
+    for order in (0, 1):
+        text = ONE_OFF
+        if order:
+            a = text.index('BEGIN:STANDARD')
+            b = text.index('BEGIN:STANDARD', a + 1)
+            c = text.index('END:VTIMEZONE')
+            text = text[:a] + text[b:c] + text[a:b] + text[c:]
+        z = tz.tzical(io.StringIO(text)).get()
+        # before the earliest onset the textually first STANDARD component applies (the property's wording)
+        pre = (7200, 'NEW') if order else (3600, 'OLD')
+        for w, off, name in ((D.datetime(1900, 6, 1),) + pre, (D.datetime(1949, 12, 31, 23),) + pre, (D.datetime(1960, 6, 1), 3600, 'OLD'),
+                             (D.datetime(1980, 4, 6, 1, 59), 3600, 'OLD'), (D.datetime(1980, 4, 6, 3, 0, 1), 7200, 'NEW'), (D.datetime(2020, 1, 1), 7200, 'NEW')):
+            ctx.ev()
+            ctx.count('directed_one_off')
+            ctx.distinct('one-off|%d|%s' % (order, w.year))
+            dt = w.replace(tzinfo=z)
+            got = (int(dt.utcoffset().total_seconds()), dt.tzname())
+            if got != (off, name):
+                ctx.violation('one-off-components', {'zone': 'OneOff', 'order': order, 'wall': w.isoformat()}, 'got %r, the definition says %r' % (got, (off, name)))
+    # (2) offsets with seconds (+-hhmmss), negative
+    z = tz.tzical(io.StringIO(SUBMINUTE)).get()
+    pz = PZ.PosixZone('LST', -(4 * 3600 + 56 * 60 + 2), 'LDT', -(3 * 3600 + 56 * 60 + 2), ('M', 4, 1, 0), 7200, ('M', 10, 5, 0), 7200)
+    for u in (D.datetime(1950, 1, 15, 12), D.datetime(1950, 7, 15, 12), D.datetime(2015, 3, 1), D.datetime(2015, 6, 1)):
+        ctx.ev()
+        ctx.count('directed_subminute')
+        ctx.distinct('subminute|%s' % u.isoformat())
+        exp = pz.at(u)
+        got = answers_at(z, u, tz.UTC)
+        if got[0] != exp[0] or got[1] != exp[0] or got[2] != exp[1]:
+            ctx.violation('subminute-offsets', {'zone': 'Solar/West', 'utc': u.isoformat()}, 'got %r, the definition says %r' % (got[:3], exp))
+
+
 MALFORMED = {
     'missing-tzid': 'BEGIN:VTIMEZONE\nBEGIN:STANDARD\nDTSTART:20001029T020000\nTZOFFSETFROM:-0400\nTZOFFSETTO:-0500\nEND:STANDARD\nEND:VTIMEZONE\n',
     'missing-dtstart': 'BEGIN:VTIMEZONE\nTZID:X\nBEGIN:STANDARD\nTZOFFSETFROM:-0400\nTZOFFSETTO:-0500\nEND:STANDARD\nEND:VTIMEZONE\n',
@@ -118,6 +215,8 @@ MALFORMED = {
     'dtstart-parm': 'BEGIN:VTIMEZONE\nTZID:X\nBEGIN:STANDARD\nDTSTART;TZID=Y:20001029T020000\nTZOFFSETFROM:-0400\nTZOFFSETTO:-0500\nEND:STANDARD\nEND:VTIMEZONE\n',
     'tzid-parm': 'BEGIN:VTIMEZONE\nTZID;X=1:X\nBEGIN:STANDARD\nDTSTART:20001029T020000\nTZOFFSETFROM:-0400\nTZOFFSETTO:-0500\nEND:STANDARD\nEND:VTIMEZONE\n',
     'empty': '',
+    'second-zone-without-tzid': ('BEGIN:VTIMEZONE\nTZID:First\nBEGIN:STANDARD\nDTSTART:20001029T020000\nTZOFFSETFROM:-0400\nTZOFFSETTO:-0500\nEND:STANDARD\nEND:VTIMEZONE\n'
+                                 'BEGIN:VTIMEZONE\nBEGIN:STANDARD\nDTSTART:20001029T020000\nTZOFFSETFROM:-0700\nTZOFFSETTO:-0800\nEND:STANDARD\nEND:VTIMEZONE\n'),
 }
 
 
@@ -129,7 +228,7 @@ def check_malformed(ctx, tz):
             ctx.distinct('malformed|' + name)
             try:
                 r = tz.tzical(io.StringIO(t))
-                z = r.get()
+                z = r.get() if len(r.keys()) <= 1 else r.keys()
             except ValueError:
                 continue
             except Exception as e:
@@ -200,17 +299,24 @@ def run(ctx):
             ctx.count('shape_' + shape)
             siblings = [('tzrange', tzzoo.tzrange_equivalent(tz, relativedelta, pz))]
             if not tzzoo.k3_applies(pz):
-                siblings.append(('tzstr', tz.tzstr(s)))
+                try:
+                    siblings.append(('tzstr', tz.tzstr(s)))
+                except ValueError:
+                    if not tzzoo.subminute(pz):
+                        raise
+                    ctx.count('tzstr_subminute_rejected')
             label = 'tzical(%s)[%s]' % (s, shape)
             check_zone_vs_model(ctx, tz, label, z, pz, rng, siblings, shape)
             # wall-time classification across gaps and folds (fresh zone object: another query history)
             z2 = tz.tzical(io.StringIO(text)).get()
             c05.check_zone(ctx, tz, label, 'tzical', z2, TM.PosixModel(pz, [2019, 2020, 2021]), rng)
             check_before_first_onset(ctx, tz, label, z2, pz, first_year)
+            check_first_year(ctx, tz, label, tz.tzical(io.StringIO(text)).get(), pz, first_year)
             if i % 4 == 0:
                 ctx.sample({'tz_string': s, 'shape': shape, 'vtimezone_head': text[:160]})
         check_malformed(ctx, tz)
         check_addressing(ctx, tz, rng)
+        check_directed_zones(ctx, tz)
         pz = PZ.PosixZone('EST', -18000, 'EDT', -14400, ('M', 3, 2, 0), 7200, ('M', 11, 1, 0), 7200)
         tz_sched.sweep(ctx, tz, pz, rng, 150 if ctx.tier == 'quick' else 2500)
         for k, v in hits.items():
